@@ -4,7 +4,7 @@
    accepted trees satisfy.  The equivalences with the documented grammar (AcceptStatements.C04_parser_stmt) and with
    the static rules (C04_static_stmt) are stated in AcceptStatements.v; until they are proved they are decided on
    explored token sequences by the independent recogniser of tools/explore_accept.py. *)
-From Theo Require Import Base Regex Tokens Errors Lexer Scan MacroExtract Grammar LR MacroApply Parser VMModel VMSpec VMCheck GenModel Compile Gen_Lexer Gen_Consts CompileStatements Proofs_Front Proofs_Gen RefSem SemStatements Proofs_Sem.
+From Theo Require Import Base Regex Tokens Errors Lexer Scan MacroExtract Grammar LR MacroApply Parser VMModel VMSpec VMCheck GenModel Compile Gen_Lexer Gen_Consts CompileStatements Proofs_Front Proofs_Gen RefSem SemStatements Proofs_Sem SugarStatements SpecMacro ApplyStatements MacroStatements ApplyCompleteStatements LocErrStatements Proofs_Sugar.
 Local Open Scope Z_scope.
 
 (* in every case the result is correct with no error, or incorrect with at least one *)
@@ -53,3 +53,34 @@ Theorem C04_static :
     (gr_errors r = [] <-> exists rs, abstract_source (Some root) = Some rs).
 Proof. exact C04_static_proof. Qed.
 Print Assumptions C04_static.
+
+Theorem C04_std_macros :
+  length std_macros = 2%nat /\
+  (exists m, macro_for plus_text = Some m /\ map tk (m_rule m) = [ID_TEMP; NV_ID; INT_TEMP] /\
+             map tk (m_repl m) = [RUN; ID; WITH; INSERTION; ARGSEP; INSERTION; END]) /\
+  (exists m, macro_for minus_text = Some m /\ map tk (m_rule m) = [ID_TEMP; NV_ID; INT_TEMP] /\
+             map tk (m_repl m) = [RUN; ID; WITH; INSERTION; ARGSEP; INSERTION; END]).
+Proof. exact C04_std_macros_proof. Qed.
+Print Assumptions C04_std_macros.
+
+Theorem C04_sugar :
+  forall input passes errs out,
+    eof_terminated input -> no_unknown input ->
+    apply_macros input std_macros passes = Ok (errs, out) ->
+    (count_sugar input < passes)%nat ->
+    errs = [] /\ out = desugar input.
+Proof. exact C04_sugar_proof. Qed.
+Print Assumptions C04_sugar.
+
+Theorem C04_accepts :
+  forall files main c toks serrs xerrs out,
+    compile files main = Ok c ->
+    scan Gen_Lexer.rules (seen_files files main) main = Ok (toks, serrs) ->
+    extract_macros toks = Ok (xerrs, out, std_macros) ->
+    (count_sugar out < N.to_nat macro_passes)%nat ->
+    (cr_ok c = true <->
+       serrs = [] /\ xerrs = [] /\
+       exists root, parse_tokens (desugar out) = Ok (root, []) /\
+                    match root with Some n => exists rs, abstract_source (Some n) = Some rs | None => True end).
+Proof. exact C04_accepts_proof. Qed.
+Print Assumptions C04_accepts.
